@@ -131,7 +131,12 @@ PickClauses(pre, ev) ==
     P_StreamsFresh |-> \A a \in 1..Len(allfp) : allfp[a] \in DOMAIN fpSig => fpSig[allfp[a]] = sig,
     \* a job's streams are a function of the seed and the job's ordinal only: the same in every
     \* uninterrupted run of that seed (other worker counts, other completion orders) ...
-    P_StreamFunction |-> (tr.straight /\ <<tr.seed, tr.npk>> \in DOMAIN ordTab) => ordTab[<<tr.seed, tr.npk>>] = allfp,
+    \* the job's streams are spawned one after the other from the job's own child: two jobs with the same (seed, ordinal)
+    \* agree on the streams both of them have (a zero-swap job has two more than a single-ensemble job)
+    P_StreamFunction |-> (tr.straight /\ <<tr.seed, tr.npk>> \in DOMAIN ordTab) =>
+                            LET was == ordTab[<<tr.seed, tr.npk>>]
+                                m   == IF Len(was) < Len(allfp) THEN Len(was) ELSE Len(allfp)
+                            IN \A a \in 1..m : was[a] = allfp[a],
     \* ... and never shared with a run of another seed
     P_StreamSeed |-> \A a \in 1..Len(allfp) : allfp[a] \in DOMAIN fpSeed => fpSeed[allfp[a]] = tr.seed,
     \* C06: a re-issued job is recorded as in flight again, so that a second stop re-issues it too
